@@ -62,7 +62,8 @@ def has_tf(case):
 
 
 def gen_case(rng: random.Random, engine=None, sd_family=None):
-    case = c02.gen_case(rng, engine)
+    case = c02.gen_case(rng, engine, family="library")  # single-column levels in library order: the level semantics of the free family are C02's subject
+    case["retain"] = [True, True]  # the entry points are compared on their gamma_ / tf_ columns: keep the intermediate columns in every output
     case["construct"] = "dict"
     case.pop("thr", None)
     n = len(case["rows"])
@@ -691,7 +692,7 @@ def oracle(case, x, y, tfx, tfy):
     gam, infinite = [], False
     for c in case["comparisons"]:
         nn = [l for l in c["levels"] if l["kind"] != "null"]
-        chosen = next(l for l in c["levels"] if c02.guard(l, x[c["col"]], y[c["col"]]) == 1)
+        chosen = next(l for l in c["levels"] if c02.guard_values(l, x[c["col"]], y[c["col"]]) == 1)
         if chosen["kind"] == "null":
             gam.append(-1)
             continue
@@ -1066,7 +1067,7 @@ def finish_request(case, base, recs, queries, need, fm=None, me=None):
     for l, r in need:
         if gm[l][r] is None:
             x, y = recs[l]["_vals"], recs[r]["_vals"]
-            gm[l][r] = [[c02.guard(lv, x[c["col"]], y[c["col"]]) for lv in c["levels"]] for c in case["comparisons"]]
+            gm[l][r] = [[c02.guard_values(lv, x[c["col"]], y[c["col"]]) for lv in c["levels"]] for c in case["comparisons"]]
     req = dict(base)
     req.update({"recs": [{"val": r["val"], "sup": r["sup"]} for r in recs], "guards": gm,
                 "queries": [{"kind": k, "l": l, "r": r} for k, l, r in queries], "fm": fm, "me": me})
